@@ -21,15 +21,31 @@ def skeleton(text):
 def classify(ev, events, pos):
     stmt = events[0]
     sk = skeleton(stmt["text"])
-    updating = any(c in ("create", "merge", "set", "delete", "detach delete", "remove") for c in sk)
-    # where in the emitted statement: inside which kind of statement node, and in a query with how many parts
+    low = re.sub(r"'(?:[^'\\]|\\.)*'|\"(?:[^\"\\]|\\.)*\"", "''", stmt["text"].lower())
+    # what the query is made of: the finding is named after the features that meet in it
+    feats = []
+    if "with" in sk:
+        feats.append("multi-part")
+    for c in ("create", "merge", "set", "delete", "remove"):
+        if c in sk or (c == "delete" and "detach delete" in sk):
+            feats.append(c)
+    if "unwind" in sk:
+        feats.append("unwind")
+    if "optional match" in sk:
+        feats.append("optional-match")
+    if re.search(r"\[[^\]]*\*", low):
+        feats.append("variable-length")
+    if re.search(r"\b\w+\s*=\s*\(", low) and re.search(r"match\s+\w+\s*=\s*\(", low):
+        feats.append("path-variable")
+    if re.search(r"where\b[^;]*?(?:not\s+)?\(\w*(?::\w+)?(?:\s*\{[^}]*\})?\)\s*(?:<-|-)\s*\[", low):
+        feats.append("pattern-predicate")
     dml = []
     for e in events[1:pos]:
         if e["e"] == "dml_push":
             dml.append(e["kind"])
         elif e["e"] == "dml_pop" and dml:
             dml.pop()
-    shape = "in-%s/%s-%s-query" % (dml[-1] if dml else "select", "updating" if updating else "read-only", "multi-part" if "with" in sk else "single-part")
+    shape = "in-%s/%s" % (dml[-1] if dml else "select", "+".join(feats) or "plain")
     defined = [e["name"] for e in events if e["e"] == "cte_begin"]
     open_ctes = []
     for e in events[1:pos]:
